@@ -759,6 +759,76 @@ def gen_c08(repo="/repo"):
     bsite("ts_resample", TS, "resample", {"out_len": "Z"}, "container", ctor={"classes": TSX, "data": "tim_ar"}, ext={"tim_ar.size": ("out_len", "Z")})
     bsite("ts_correlate", TS, "correlate", {"out_len": "Z"}, "container", ctor={"classes": TSX, "data": "corr_ar"}, ext={"corr_ar.size": ("out_len", "Z")})
     bsite("ts_to_tim", TS, "to_tim", {}, "file")
+    # TimeSeries -> TimeSeries methods that hand the header on unchanged: new_header() without updates, or self.header itself
+    bsite("ts_normalise", TS, "normalise", {}, "container", ctor={"classes": TSX, "data": "zscore_re.data"})
+    bsite("ts_apply_boxcar", TS, "apply_boxcar", {}, "container", ctor={"classes": TSX, "data": "boxcar_ar"})
+    try:
+        fn = _meth(TS, "deredden")
+        rets = [n for n in ast.walk(fn) if isinstance(n, ast.Return)]
+        if [ast.unparse(r) for r in rets] != ["return TimeSeries(tim_deredden, self.header)"] or header_calls(fn):
+            raise Unsupported("TimeSeries.deredden no longer returns TimeSeries(tim_deredden, self.header)")
+        out.append("(* from deredden (container): the header object of the input itself *)\nDefinition hdr_ts_deredden (h : Hdr) : Hdr := h.\n")
+    except Unsupported as e:
+        errors.append(f"ts_deredden: {e}")
+        out.append(f"(* UNSUPPORTED ts_deredden: {str(e).replace('*)', '* )')} *)\n")
+    bsite("block_normalise", BB, "normalise", {}, "container", ctor={"classes": BLK, "data": "zscore_re.data"})
+
+    # ---- dispersion delays of either sign: dedisperse / subband refer them to the earliest channel ----
+    try:
+        txt = None
+        for meth in ("dedisperse", "subband"):
+            fn = _meth(FB, meth)
+            asg = [n for n in ast.walk(fn) if isinstance(n, ast.Assign) and ast.unparse(n.targets[0]) in ("chan_delays", "max_delay")]
+            asg.sort(key=lambda n: n.lineno)
+            srcs = [ast.unparse(a) for a in asg]
+            if len(srcs) != 3 or srcs[0] != "chan_delays = self.header.get_dmdelays(dm)" or srcs[2] != "max_delay = int(chan_delays.max())":
+                raise Unsupported(f"{meth}: chan_delays / max_delay statements changed: " + " | ".join(srcs)[:200])
+            v = asg[1].value
+            if not (isinstance(v, ast.BinOp) and isinstance(v.op, ast.Sub) and ast.unparse(v.left) == "chan_delays"):
+                raise Unsupported(f"{meth}: the delays are no longer shifted by subtracting a scalar: " + srcs[1][:100])
+            env = Env(H, fn, {}, ext={"chan_delays.min()": ("dmin", "Z")})
+            sh = env.expr(v.right)
+            if sh[1] != "Z" or env.lets:
+                raise Unsupported(f"{meth}: shift of the delays is not an integer expression of chan_delays.min()")
+            if txt is not None and txt != sh[0]:
+                raise Unsupported("dedisperse and subband shift their delays differently")
+            txt = sh[0]
+        out.append("(* from Filterbank.dedisperse / subband: chan_delays = get_dmdelays(dm) - <shift>; max_delay = int(chan_delays.max()).\n"
+                   "   dmin, dmax: smallest / largest delay as get_dmdelays returns them (negative on an ascending band or for a negative DM) *)")
+        out.append(f"Definition delay_shift (dmin : Z) : Z := {txt}.")
+        out.append("Definition max_delay_referred (dmin dmax : Z) : Z := (dmax - delay_shift dmin)%Z.\n")
+    except Unsupported as e:
+        errors.append(f"delay_shift: {e}")
+        out.append(f"(* UNSUPPORTED delay_shift: {str(e).replace('*)', '* )')} *)\n")
+
+    # ---- kernels.roll_block_valid: which columns FilterbankBlock.dedisperse(only_valid_samples=True) keeps ----
+    try:
+        kern = _parse(repo, "sigpyproc/core/kernels.py")
+        fn = [n for n in kern.body if isinstance(n, ast.FunctionDef) and n.name == "roll_block_valid"]
+        if len(fn) != 1:
+            raise Unsupported("kernels.roll_block_valid not found")
+        fn = fn[0]
+        src = ast.unparse(fn)
+        for need in ("nrows, ncols = arr.shape", "res = np.empty((nrows, valid_cols), dtype=arr.dtype)",
+                     "res[irow, :] = arr[irow, start_col - shift:end_col - shift]", "shift = shifts[irow]", "return res"):
+            if need not in src:
+                raise Unsupported("roll_block_valid: expected line not found: " + need)
+        dd = ast.unparse(_meth(FBk, "dedisperse"))
+        if "new_ar = kernels.roll_block_valid(self.data, -delays)" not in dd or "delays = self.header.get_dmdelays(dm, ref_freq=ref_freq)" not in dd:
+            raise Unsupported("FilterbankBlock.dedisperse no longer calls kernels.roll_block_valid(self.data, -delays)")
+        env = Env(H, fn, {"ncols": "Z"}, ext={"np.max(shifts)": ("smax", "Z"), "np.min(shifts)": ("smin", "Z")}, allow_reassigned=("ncols",))
+        vc = env.expr(ast.Name(id="valid_cols", ctx=ast.Load()))
+        lets = env.let_prefix()
+        sc = env.vars["start_col"][0]
+        out.append("(* from kernels.roll_block_valid(arr, shifts): res[row, j] = arr[row, start_col - shifts[row] + j] for j < valid_cols;\n"
+                   "   smin, smax: smallest / largest shift.  FilterbankBlock.dedisperse passes shifts = -delays *)")
+        out.append(f"Definition roll_valid_cols (ncols smin smax : Z) : Z :=\n{lets}  {vc[0]}.")
+        out.append(f"Definition roll_valid_start (ncols smin smax : Z) : Z :=\n{lets}  {sc}.")
+        out.append("Definition block_valid_cols (n dmin dmax : Z) : Z := roll_valid_cols n (- dmax) (- dmin).")
+        out.append("Definition block_valid_start (n dmin dmax : Z) : Z := roll_valid_start n (- dmax) (- dmin).\n")
+    except Unsupported as e:
+        errors.append(f"roll_block_valid: {e}")
+        out.append(f"(* UNSUPPORTED roll_block_valid: {str(e).replace('*)', '* )')} *)\n")
     return "\n".join(out) + "\n", errors
 
 
